@@ -29,4 +29,64 @@ def dedup : List String → List String
 /-- classes of the violated rules (each once, in rule order of last occurrence) -/
 def violatedClasses (d : Desc) : List String := dedup ((violated d).map Rule.cls)
 
+/-- 0 = checkBlockSanity (context free), 1 = checkBlockContext, 2 = checkConnectBlock -/
+def stage : Rule → Nat
+  | .powTarget | .powHash | .timeNew | .noTx | .baseSize | .firstCoinbase | .multiCoinbase
+  | .txNoInputs | .txNoOutputs | .txTooBig | .outValue | .dupInputs | .cbScriptLen | .nullPrevout
+  | .merkle | .dupTx | .sigopsLegacy => 0
+  | .bits | .timeOld | .timewarp | .version | .finality | .bip34Height | .witnessCommit
+  | .unexpectedWitness | .weight => 1
+  | .bip30 | .missingInput | .immature | .inValue | .spendTooHigh | .feeRange | .coinbaseValue
+  | .seqLocks | .scripts | .sigopsCost => 2
+
+def stageOk (k : Nat) (d : Desc) : Bool := Rule.all.all (fun r => stage r != k || ruleOk r d)
+
+
+/-- classes of the violated rules of one stage -/
+def stageClasses (k : Nat) (d : Desc) : List String :=
+  dedup (((violated d).filter (fun r => stage r == k)).map Rule.cls)
+
+/-! ### the stand-alone exported checks of validate.go / weight.go / chain.go on one transaction -/
+
+/-- `CheckTransactionSanity`: the class of the first failing check, in the code's order -/
+def txSanityClass (t : TxFacts) : String :=
+  if t.ins.isEmpty then "tx-empty"
+  else if t.outs.isEmpty then "tx-empty"
+  else if t.strippedSize > MAX_BLOCK_BASE_SIZE then "size"
+  else if !(t.outs.all moneyRange && moneyRange t.outSum) then "value"
+  else if t.dupInputs then "dup-inputs"
+  else if t.isCoinbase then
+    (if t.script0Len < MIN_COINBASE_SCRIPT_LEN || t.script0Len > MAX_COINBASE_SCRIPT_LEN then "cb-script-len" else "ok")
+  else if t.ins.any (·.null) then "null-prevout"
+  else "ok"
+
+/-- the input loop of `CheckTransactionInputs`: first failing class or the running total -/
+def inputsLoop (height maturity : Int) : List InFacts → Int → Except String Int
+  | [], total => .ok total
+  | i :: rest, total =>
+    if !i.avail || i.null then .error "missing"
+    else if i.isCb && decide (height - i.originHeight < maturity) then .error "immature"
+    else if !moneyRange i.amount then .error "value"
+    else if !moneyRange (total + i.amount) then .error "value"
+    else inputsLoop height maturity rest (total + i.amount)
+
+/-- `CheckTransactionInputs`: "fee:<n>" or the class of the first failing check -/
+def txInputsResult (t : TxFacts) (height maturity : Int) : String :=
+  if t.isCoinbase then "fee:0"
+  else match inputsLoop height maturity t.ins 0 with
+    | .error c => c
+    | .ok total => if total < t.outSum then "spend" else s!"fee:{total - t.outSum}"
+
+/-- `GetSigOpCost(tx, isCoinBase, view, bip16, segwit)`; with bip16 a missing input makes the function return
+    (0, nil) — the code swallows the error of `CountP2SHSigOps` — which is mirrored here -/
+def txSigOpCostResult (t : TxFacts) (bip16 segwit : Bool) : String :=
+  let missing := t.ins.any (fun i => !i.avail || i.null)
+  let base := t.legacySigops * WITNESS_SCALE_FACTOR
+  if bip16 && !t.isCoinbase && missing then "0"
+  else
+    let c1 := if bip16 && !t.isCoinbase then base + sumInt (t.ins.map (·.p2shSigops)) * WITNESS_SCALE_FACTOR else base
+    if segwit && !t.isCoinbase then
+      (if missing then "missing" else toString (c1 + sumInt (t.ins.map (·.witSigops))))
+    else toString c1
+
 end BV.C01
